@@ -16,6 +16,9 @@ CLAIMED = {
  'C04': ('5.3', 'Unknown records are skipped by their declared length without disturbing what follows (every format/body/continuation) and XDR strings are consumed with their padding -- proved; the datagram round trip over an independent XDR encoder is evaluated in Coq on generated datagrams (c04_roundtrip_partial) and checked against the Go decoder on every run, with byte-level mutants.', 'Partial: decode(encode S) = S is not proved for all S; it rests on the correspondence run. '),
  'C09': ('5.9', 'One message per flow/expanded-flow sample, other header protocols only set bytes, gateway AS rules -- proved on the model of the sFlow producer; datagrams mixing all record kinds in random order, raw headers that are (cut) captures of model frames, through the real SFlowPipe compared with the model on every column.', 'Partial: the reference mapping is the model itself (no separate per-column reference). '),
  'C10': ('5.10', 'Inner (tunnelled) headers never change an outer column for any byte string, and no parser can panic -- proved; complete captures of layered model frames equal an independent reference; EVERY capture length compared with the model and judged by the property quantifier; exhaustive ethertype/protocol dispatch sweeps.', 'Partial: parse(encode f) = ref f is not proved for all frames (evaluated in Coq on generated frames, compared on every run). '),
+
+ 'C08': ('5.8', 'Integers of every width 1..8 read at full value, each documented plain-integer element fills its documented column, v9/IPFIX clock rules with 2^64 wrap, every v5 column, enrichment and unmapping -- proved on the model; tied to the Go producer by an exhaustive sweep of element id 0..511 x width 0..9 x version and random multi-field records through the real pipe.', 'Partial: the reference mapping is the model (table theorems about it), not an independent per-column reference. '),
+ 'C13': ('5.13', 'Varint length prefix round trip, unambiguous splitting of any concatenated stream, well-formedness of the JSON object for any rendered values and any (ASCII) string bytes -- proved; the real bin output is compared byte for byte with the model encoder, encoding/json with the model escape (all single bytes exhaustively), and json.Valid / key order / protodelim stream / cross-format agreement are judged on the implementation under generated formatter configurations.', 'Partial: renderers and non-ASCII escaping are judged on the implementation only (json.Valid), protobuf-go and encoding/json are trusted. '),
 }
 props = [json.loads(l) for l in open(os.path.join(V, 'properties.jsonl'))]
 checks, na = [], []
